@@ -158,11 +158,15 @@ func (fs *FSResults) Spool(graph string, stream *Stream) (string, error) {
 		statusFile, err := os.Create(statusPath)
 		if err == nil {
 			defer statusFile.Close()
-			job.Status.State = gripql.JobState_COMPLETE
-			out, err := json.Marshal(job)
+			// jobs are reloaded from their status files on restart: write the file
+			// before the job is reported COMPLETE to clients
+			done := *job
+			done.Status.State = gripql.JobState_COMPLETE
+			out, err := json.Marshal(&done)
 			if err == nil {
 				statusFile.Write([]byte(fmt.Sprintf("%s\n", out)))
 			}
+			job.Status.State = gripql.JobState_COMPLETE
 			log.Printf("Job Done: %s (%d results)", jobName, job.Status.Count)
 		} else {
 			job.Status.State = gripql.JobState_ERROR
